@@ -415,12 +415,89 @@ def search(ctx):
                     out.append({"key": key, "what": r[1], "kind": "c16-probe", **H.case_json(plain, hist),
                                 "probe": [[pk.hex(), w_] for pk, w_ in probe]})
                 break
+    # truncated fast-packet frames as garbage (first frame announcing a length but carrying 0..2 data bytes,
+    # continuation frames carrying the counter byte only, in every order), then a complete message with ANOTHER
+    # sequence counter on the same stream
+    P = H.pools(ctx)
+    for pgn in list(H.FAST)[:6]:
+        if "C16:fast-fresh-probe-depends-on-history" in seen or "C16:fast-probe-depends-on-history" in seen:
+            break
+        dst = 255 if not H.is_pdu1(pgn) else 17
+        payload = P.payload(pgn, 0.1)
+        for trial in range(ctx.n(6, 40)):
+            gs = rng.randrange(8)
+            garbage = []
+            for _ in range(rng.randint(1, 4)):
+                fc = rng.choice([0, 0, 1, 1, 2, 3])
+                body = bytes([(gs << 5) | fc]) + (bytes([rng.choice([9, 20, 30])]) if fc == 0 else b"") + \
+                    bytes(rng.getrandbits(8) for _ in range(rng.choice([0, 0, 1, 2])))
+                garbage.append((H.mk_pkt(pgn, 5, dst, 3, body, len(body)), False))
+            probe = [(H.mk_pkt(pgn, 5, dst, 3, (f + bytes([0xFF] * 8))[:8], 8), False)
+                     for f in H.fast_frames(payload, (gs + 1 + rng.randrange(7)) % 8)]
+            r = c16_probe_oracle(plain, garbage, probe)
+            if r:
+                key = f"C16:{r[0]}-probe-depends-on-history"
+                if key not in seen:
+                    seen.add(key)
+                    out.append({"key": key, "what": r[1], "kind": "c16-probe", **H.case_json(plain, garbage),
+                                "probe": [[pk.hex(), w_] for pk, w_ in probe]})
+                break
+    # the same decoder fed through DIFFERENT entry points: a pre-assembled text line of a fast-packet PGN
+    # (Actisense / canboat with already_combined), then the raw frames of another message of that PGN — and the
+    # other way round; each must come back as on a new decoder
+    w = mixed_entry_oracle(ctx, rng)
+    if w and w["key"] not in seen:
+        seen.add(w["key"])
+        out.append(w)
     return out
+
+
+def mixed_entry_oracle(ctx, rng, only=None):
+    Dec = H._impl()[0]
+    P = H.pools(ctx)
+
+    def obs(fn, x):
+        try:
+            m = fn(x)
+        except Exception as e:  # noqa: BLE001
+            return ("raises", type(e).__name__)
+        return None if m is None else (m.PGN, m.id, m.source, m.destination, repr([(f.id, f.raw_value) for f in m.fields]))
+    for pgn in ([only] if only else list(H.FAST)[:8]):
+        dst = 255
+        if H.is_pdu1(pgn):
+            continue
+        pay1, pay2 = P.payload(pgn, 0.1), P.payload(pgn, 0.1)
+        line = "2020-01-01-00:00:00.000,3,%d,5,%d,%d,%s" % (pgn, dst, len(pay1), ",".join("%02x" % b for b in pay1))
+        frames = [H.mk_pkt(pgn, 5, dst, 3, (f + bytes([0xFF] * 8))[:8], 8) for f in H.fast_frames(pay2, 3)]
+        # text first, frames second
+        a, b = Dec(), Dec()
+        first = obs(lambda s: a.decode_basic_string(s, True), line)
+        got = [obs(a.decode_tcp, f) for f in frames]
+        want = [obs(b.decode_tcp, f) for f in frames]
+        if got != want:
+            return {"key": "C16:mixed-entry-points", "kind": "c16-mixed", "pgn": pgn,
+                    "what": f"PGN {pgn}: after one pre-assembled text line ({first and first[1]}) the frames of the next message "
+                            f"return {[g and g[0] for g in got]}, on a new decoder {[g and g[0] for g in want]}"}
+        # frames first, text second
+        a, b = Dec(), Dec()
+        for f in frames:
+            obs(a.decode_tcp, f)
+        got2, want2 = obs(lambda s: a.decode_basic_string(s, True), line), obs(lambda s: b.decode_basic_string(s, True), line)
+        if got2 != want2:
+            return {"key": "C16:mixed-entry-points", "kind": "c16-mixed", "pgn": pgn,
+                    "what": f"PGN {pgn}: after a message received frame by frame, a pre-assembled text line returns "
+                            f"{got2 and got2[0]}, on a new decoder {want2 and want2[0]}"}
+    return None
 
 
 def replay(ctx, data):
     w = data.get("witness", data)
     k = w.get("kind")
+    if k == "c16-mixed":
+        r = mixed_entry_oracle(ctx, ctx.rng, only=w.get("pgn"))
+        print("expected: a message comes back the same whatever entry points the decoder served before")
+        print("observed:", r["what"] if r else "property holds on this input")
+        return r is not None
     if k == "c16-probe":
         r = c16_probe_oracle(H.cfg_unjson(w["config"]), H.hist_unjson(w["history"]), H.hist_unjson(w["probe"]))
         print("expected: the probe returns the same after the history as on a new decoder")
